@@ -61,6 +61,79 @@ def unescape(s):
     return s.replace('\\"', '"').replace('\\\\', '\\')
 
 
+def _compact(text):
+    """TLC's pretty-printer output of one value -> the single-line form TLC uses for short values"""
+    out, i, n, instr = [], 0, len(text), False
+    while i < n:
+        c = text[i]
+        if instr:
+            out.append(c)
+            if c == '\\' and i + 1 < n:
+                out.append(text[i + 1])
+                i += 1
+            elif c == '"':
+                instr = False
+        elif c == '"':
+            instr = True
+            out.append(c)
+        elif c in ' \t\n':
+            if out and out[-1] != ' ':
+                out.append(' ')
+        else:
+            out.append(c)
+        i += 1
+    t = ''.join(out).strip()
+    # outside strings: no blank after an opening or before a closing bracket
+    res, instr, k = [], False, 0
+    while k < len(t):
+        c = t[k]
+        if instr:
+            res.append(c)
+            if c == '\\' and k + 1 < len(t):
+                res.append(t[k + 1])
+                k += 1
+            elif c == '"':
+                instr = False
+        elif c == '"':
+            instr = True
+            res.append(c)
+        elif c == ' ' and res and (res[-1] in '{[(' or ''.join(res[-2:]) == '<<'):
+            pass
+        elif c == ' ' and k + 1 < len(t) and (t[k + 1] in '}])' or t[k + 1:k + 3] == '>>'):
+            pass
+        else:
+            res.append(c)
+        k += 1
+    return ''.join(res)
+
+
+def unwrap_values(lines):
+    """TLC breaks a printed value that is wider than 80 columns over several lines ('<< "TAG",' first);
+    such a value is joined and compacted, so that line-based parsers see every printed value on one line"""
+    buf = None
+    for line in lines:
+        if buf is None:
+            if line.startswith('<< "') and not line.rstrip().endswith('>>'):
+                buf = [line]
+                continue
+            if line.startswith('<< "') and line.rstrip().endswith('>>'):
+                yield _compact(line) + '\n'
+                continue
+            yield line
+        else:
+            buf.append(line)
+            if line.rstrip().endswith('>>') and not line.startswith('<< "'):
+                yield _compact(''.join(buf)) + '\n'
+                buf = None
+            elif len(buf) > 5000:
+                for b in buf:
+                    yield b
+                buf = None
+    if buf:
+        for b in buf:
+            yield b
+
+
 def tlc(*a, **k):
     """tlc_once; a TLC killed from outside (negative rc: OOM killer, a foreign pkill) is started again, twice at most"""
     for attempt in range(3):
@@ -111,7 +184,7 @@ def tlc_once(cfg, module, scratch, overrides=None, simulate=None, workers=None, 
             rc = 124
     univ, hists, rest = None, [], []
     with open(out, errors='replace') as fi:
-        for line in fi:
+        for line in unwrap_values(fi):
             if line.startswith('<<"HIST", "'):
                 hists.append(unescape(line.rstrip('\n')[len('<<"HIST", "'):-3]))
             elif line.startswith('<<"UNIV", "'):
